@@ -501,6 +501,40 @@ pub fn manyrecs(ctx: &Ctx) -> Stats {
     })
 }
 
+/// batch hand-off stress for the batch writer: one record per batch (limit 1), thousands of batches per run
+pub fn manybatches(ctx: &Ctx) -> Stats {
+    let runs = ctx.n(150, 1500);
+    let batches = std::sync::atomic::AtomicU64::new(0);
+    let mut st = par_cases(ctx, runs, |idx, st| {
+        let mut rng = Rng::keyed(ctx.seed, "c05.manybatches", idx);
+        let nrec = rng.usize(3000, 5000);
+        let k = rng.usize(1, 2);
+        // pairwise distinguishable rows: record i has i % 11 + (0..3) bases
+        let recs: Vec<Rec> = (0..nrec)
+            .map(|i| {
+                let len = (i % 11) + rng.usize(0, 3);
+                Rec { id: format!("b{}", i), desc: None, seq: gen_seq(&mut rng, SeqClass::Uniform, len, true) }
+            })
+            .collect();
+        let cfg = OligoCfg { k, threads: [2usize, 3, 4, 8, 16][(idx % 5) as usize], memory: 1, header: idx % 4 == 0, delim: " ".into(), norm: idx % 2 == 0, writer: Writer::Batch };
+        let sc = Scratch::new(ctx, "c05b");
+        let inp = write_input(&sc, "in", &recs, &Container::FastaSingle, None, &mut rng);
+        st.case(true, mix(idx) ^ mix(nrec as u64 + 29));
+        batches.fetch_add(nrec as u64, std::sync::atomic::Ordering::Relaxed);
+        let case = || Json::obj().set("cfg", cfg.json()).set("n_records", Json::u(recs.len())).set("records", recs_json(&recs));
+        match run_plain(&sc, &inp, "out.kmers", &cfg) {
+            Ok(d) => {
+                if let Err((sig, msg)) = check_rows(&d, &recs, &cfg) {
+                    st.violate(&format!("{}:manybatches", sig), msg, case());
+                }
+            }
+            Err((sig, msg)) => st.violate(&sig, msg, case()),
+        }
+    });
+    st.set_extra("batch_boundaries_exercised", Json::Int(batches.load(std::sync::atomic::Ordering::Relaxed) as i128));
+    st
+}
+
 /// thousands of short records with very uneven lengths and pairwise different content
 pub fn many_records(rng: &mut Rng, n: usize) -> Vec<Rec> {
     // one case in three is also large in total bases (> 2^21) so that byte-budgeted work distribution is exercised
